@@ -200,7 +200,14 @@ func genExternDeclsByClang(pkg *aPackage, src string, cflags []string, cgoSymbol
 
 	b := strings.Builder{}
 	var toRemove []string
-	for cgoName, symbolName := range cgoSymbols {
+	// in sorted order: the generated C text must not depend on map iteration order
+	cgoNames := make([]string, 0, len(cgoSymbols))
+	for cgoName := range cgoSymbols {
+		cgoNames = append(cgoNames, cgoName)
+	}
+	slices.Sort(cgoNames)
+	for _, cgoName := range cgoNames {
+		symbolName := cgoSymbols[cgoName]
 		if strings.HasPrefix(symbolName, "__cgo_") {
 			gofuncName := strings.Replace(cgoName, ".__cgo_", ".", 1)
 			gofn := pkg.LPkg.FuncOf(gofuncName)
